@@ -731,6 +731,9 @@ func (r *runner) calculateBranch(ctx context.Context, curNodeKey string, startCh
 		var ws []string
 		if isStream {
 			ws, err = branch.collect(ctx, input[i].(streamReader))
+			// this copy was made for the condition alone: a condition that decides on a prefix leaves the
+			// rest unread, and an open copy keeps the source from ever being closed
+			input[i].(streamReader).close()
 			if err != nil {
 				return nil, fmt.Errorf("branch collect run error: %w", err)
 			}
